@@ -45,6 +45,7 @@ class Ctx:
         self.samples = []
         self.tally = core.Tally()
         self.disagreements = []  # (obligation, input, model, impl)
+        self.aux_disagreements = []
         self.violations = []  # dict(signature, what, input, expected, actual, kind)
         self.notes = []
         self.exhaustive = False
@@ -72,6 +73,11 @@ class Ctx:
             self.disagreements.append({"obligation": obligation, "input": inp, "model": model, "impl": impl_})
         else:
             self.disagreements.append(None)
+
+    def aux(self, obligation, inp, model, impl_):
+        """auxiliary correspondence: behaviour the model covers but NO property constrains (prompt wording, colours,
+        message texts).  A difference is recorded in the evidence and printed as a NOTE; it never fails a check."""
+        self.aux_disagreements.append({"obligation": obligation, "input": inp, "model": model, "impl": impl_})
 
     def violation(self, signature, what, inp, expected=None, actual=None, kind=None, replay=None):
         """a concrete input on which the property's own statement fails on the real code"""
@@ -206,6 +212,35 @@ def audit(pid, log):
     return {"rc": rc, "theorems": thms, "source_hits": bad}
 
 
+def cvss_closure(mods):
+    """the Cvss.* modules the given modules import, transitively (own project only)"""
+    seen, todo = [], list(mods)
+    while todo:
+        m = todo.pop()
+        if m in seen:
+            continue
+        seen.append(m)
+        path = os.path.join(LEAN, *m.split(".")) + ".lean"
+        try:
+            for line in open(path, encoding="utf-8"):
+                mm = re.match(r"\s*import\s+(Cvss\.[\w.]+)", line)
+                if mm:
+                    todo.append(mm.group(1))
+        except OSError:
+            pass
+    return sorted(seen)
+
+
+def leancheck(pid, log):
+    """thorough tier: the toolchain's independent re-checker replays the compiled declarations of the property's
+    modules and of every project module they depend on"""
+    mods = cvss_closure(prop_modules(pid))
+    t0 = time.time()
+    rc, out = sh(["lake", "env", "leanchecker"] + mods, cwd=LEAN, timeout=5400)
+    log.append("[leanchecker %d modules %.0fs rc=%d] %s" % (len(mods), time.time() - t0, rc, out.strip()[-300:]))
+    return rc == 0, len(mods), out.strip()[-600:]
+
+
 def load_known():
     p = os.path.join(VERIF, "known_findings.json")
     try:
@@ -272,6 +307,12 @@ def run_check(pid, tier, seed, level, level_text=None):
             proof_problems.append("no theorem found in Cvss.Props.%s" % pid)
         for h in a["source_hits"]:
             proof_problems.append("forbidden construct in source: " + h)
+    lc = None
+    if tier == "thorough" and b["build_ok"]:
+        ok_lc, n_lc, out_lc = leancheck(pid, log)
+        lc = {"modules": n_lc, "ok": ok_lc}
+        if not ok_lc:
+            proof_problems.append("leanchecker rejects the compiled proofs: " + out_lc)
     ctx.model_available = b["driver_ok"] and os.path.exists(core.DRIVER)
 
     im = core.impl()
@@ -364,8 +405,10 @@ def run_check(pid, tier, seed, level, level_text=None):
             "exhaustive": bool(ctx.exhaustive),
             "distribution": ctx.tally.as_dict(),
             "correspondence_disagreements": n_dis,
+            "auxiliary_model_drift": {"count": len(ctx.aux_disagreements), "first": ctx.aux_disagreements[:3]},
             "explanation": getattr(mod, "EXPLANATION", "") or (level_text or ""),
             "notes": ctx.notes,
+            "leanchecker": lc,
             **ctx.extra,
         },
         "assumptions": getattr(mod, "ASSUMPTIONS", []),
@@ -389,6 +432,9 @@ def run_check(pid, tier, seed, level, level_text=None):
     print("%s %s tier=%s seed=%d theorems=%d/%d evaluations=%d distinct=%d disagreements=%d violations=%d wall=%.1fs" % (
         status, pid, tier, seed, sum(1 for t in thms if t["ok"]), len(thms), ctx.evaluations, len(ctx.distinct) + ctx.distinct_bulk,
         n_dis, len(new_violations), time.time() - t0))
+    if ctx.aux_disagreements:
+        print("NOTE %s: %d auxiliary model/code differences in behaviour no property constrains (%s); see the evidence file" % (
+            pid, len(ctx.aux_disagreements), ", ".join(sorted({d["obligation"] for d in ctx.aux_disagreements}))))
     if proof_problems:
         print("proof/tie problems:\n  " + "\n  ".join(p[:600] for p in proof_problems[:6]))
     if crashed:
